@@ -830,12 +830,18 @@ func genInstance(r *rand.Rand, malformed bool) rawInstance {
 		if r.Intn(8) == 0 { // zero-padded numbers are decimal numbers
 			i.bpm = sp([]string{"0100", "0120", "007", "090", "0010", "00200"}[r.Intn(6)])
 		}
+		if r.Intn(10) == 0 { // tempo values that need fewer than three bytes, or exactly fill two or one
+			i.bpm = sp([]string{"915", "916", "917", "1000", "2000", "65535", "65536", "234375", "234376", "1000000", "30000000"}[r.Intn(11)])
+		}
 	}
 	if r.Intn(5) == 0 {
 		i.velocity = sp([]string{"pp", "p", "mp", "mf", "f", "ff"}[r.Intn(6)])
 	}
 	if r.Intn(6) == 0 {
 		i.meter = sp(fmt.Sprintf("%d/%d", 1+r.Intn(12), 1<<uint(r.Intn(5))))
+		if r.Intn(10) == 0 { // parts that are 0 modulo 256 (the SMF event has one byte for each)
+			i.meter = sp([]string{"4/256", "256/4", "3/512", "512/8", "256/256", "768/2"}[r.Intn(6)])
+		}
 	}
 	if r.Intn(4) == 0 {
 		i.key = sp(keys28[r.Intn(28)])
@@ -991,6 +997,9 @@ func genWriteCase(r *rand.Rand) writeCase {
 	}
 	if r.Intn(6) == 0 {
 		c.flags.bpm = uint64(4 + r.Intn(300))
+		if r.Intn(8) == 0 {
+			c.flags.bpm = []uint64{915, 916, 1000, 2000, 65536, 234375, 234376, 1000000}[r.Intn(8)]
+		}
 	}
 	if r.Intn(6) == 0 {
 		c.flags.velocity = []string{"pp", "p", "mp", "mf", "f", "ff"}[r.Intn(6)]
@@ -1563,6 +1572,7 @@ func streamDiatonic() {
 	}
 	type keyRes struct {
 		lines [][2]string
+		viol  [][2]string
 	}
 	results := make([]keyRes, len(spellings))
 	parallel(len(spellings), func(i int) {
@@ -1622,13 +1632,29 @@ func streamDiatonic() {
 			rr := rand.New(rand.NewSource(seed*7919 + int64(i)))
 			for _, lead := range []string{"", "R[1] "} {
 				var parts []string
+				// written the way a person would paste them: any white space the lexer takes, also right after the symbol
+				blanks := []string{" ", "", "\t", "\n", "\u00a0", "\u3000", "\u2028", "\v", " \r\n ", "\u0085", " ;chord\n"}
+				var plain []string
 				for n := 0; n < 18; n++ {
-					parts = append(parts, all[rr.Intn(len(all))]+"[1]")
+					c := all[rr.Intn(len(all))]
+					parts = append(parts, c+blanks[rr.Intn(len(blanks))]+"[1]"+blanks[rr.Intn(len(blanks))])
+					plain = append(plain, c+"[1]")
 				}
 				txt := lead + strings.Join(parts, " ")
 				cc := convCase{"syllable", k, []byte(txt)}
 				kr.lines = append(kr.lines, [2]string{cc.req(), runConv(cc)})
 				cres := runCrd(cc.text, 10*time.Second, "text", "conv", "syllable", "--key", k)
+				// the reported chords must be playable however they are spaced: same instances as the plainly spaced text,
+				// and `write --key K` takes them
+				pres := runCrd([]byte(lead+strings.Join(plain, " ")), 10*time.Second, "text", "conv", "syllable", "--key", k)
+				if pres.class() != cres.class() || !bytes.Equal(pres.stdout, cres.stdout) {
+					kr.viol = append(kr.viol, [2]string{fmt.Sprintf("crd text conv syllable --key %s on %q", k, txt),
+						fmt.Sprintf("%s %q, while the same chords separated by single spaces give %s %q", cres.class(), trunc(cres.stdout), pres.class(), trunc(pres.stdout))})
+				} else if cres.class() == "ok" {
+					if w := runCrd(cres.stdout, 10*time.Second, "write", "--key", k); w.class() != "ok" {
+						kr.viol = append(kr.viol, [2]string{fmt.Sprintf("crd text conv syllable --key %s | crd write --key %s on %q", k, k, txt), "write: " + w.class() + " " + trunc(w.stderr)})
+					}
+				}
 				if cres.class() == "ok" {
 					if is, err := rawFromYAML(cres.stdout); err == nil {
 						wc := writeCase{flags: writeFlags{track: 1, instrument: "Piano", key: k}, is: is}
@@ -1648,6 +1674,9 @@ func streamDiatonic() {
 		for _, l := range kr.lines {
 			s.add(l[0], l[1])
 			s.stat(strings.SplitN(l[0], " ", 2)[0])
+		}
+		for _, v := range kr.viol {
+			s.violate("C17", "the chords reported for a key, fed back with other white space, do not convert and play like the same chords plainly spaced", v[0], v[1])
 		}
 	}
 	// `crd info key list`: all scales alive in one process, printed in order
